@@ -154,3 +154,77 @@ Proof.
     + split; [set_solver|]. split; [set_solver|]. split; [done|]. intros _. repeat constructor; simpl; tauto.
     + split; [set_solver|]. split; [set_solver|]. split; [set_solver|]. intros _. repeat constructor; simpl; tauto.
 Qed.
+
+Lemma rank_ok_same_dom c c' rk M :
+  (forall k, is_Some (chans c' !! k) -> is_Some (chans c !! k)) ->
+  (forall o k j, obj_in c' o -> k ∈ provides o -> j ∈ refs o -> (rk k < rk j)%nat) ->
+  rank_ok c rk M -> rank_ok c' rk M.
+Proof. intros Hd He [H1 _]. split; [intros k Hk; apply H1, Hd, Hk|exact He]. Qed.
+
+Section Step.
+Variable D : tenv.
+Variable F : list fundef.
+Variable teq : sty -> sty -> Prop.
+Hypothesis Hteq : teq_laws D teq.
+Hypothesis HF : funs_typed D F teq.
+
+(* ------------------------------------------------------------------ a process sends and ends *)
+Lemma topo_send c p pp k m st :
+  Topo c -> LinCfg c -> procs c !! p = Some pp -> pr_provs pp <> [] ->
+  action_of Async D pp = ASend k m -> m_rule m <> RGC ->
+  chans c !! k = Some st -> ch_closed st = false -> ch_buf st = None ->
+  Topo (del_proc (put_msg c k st (Some m)) p) /\ LinCfg (del_proc (put_msg c k st (Some m)) p).
+Proof.
+  intros Ht Hl Hp Hne Ha Hgc Hk Hcl Hb.
+  destruct (send_objs D pp k m Hne Ha) as (Hrefs & Hprov & Hprov' & Hlin).
+  set (c' := del_proc (put_msg c k st (Some m)) p).
+  assert (Hobj' : forall o', obj_in c' o' ->
+            match o' with
+            | OProc r rr => r <> p /\ procs c !! r = Some rr
+            | OMsg k' m' => (k' = k /\ m' = m) \/ (k' <> k /\ obj_in c (OMsg k' m'))
+            end).
+  { intros [r rr|k' m']; unfold c', del_proc, put_msg; cbn.
+    - intros H. apply lookup_delete_Some in H as [Hn H]. split; [congruence|done].
+    - intros (st' & H & Hbuf). apply lookup_insert_Some in H as [[<- <-]|[Hne' H]]; [left; cbn in Hbuf; split; congruence|].
+      right. split; [done|]. by exists st'. }
+  split.
+  - apply (topo_rewrite c c' [OProc p pp] [OMsg k m] (fun _ => False)); try done.
+    + intros o Ho. apply elem_of_list_singleton in Ho as ->. exact Hp.
+    + intros [r rr|k' m'] Ho.
+      * destruct (decide (r = p)) as [->|Hn]; [left|right].
+        -- cbn in Ho. rewrite Hp in Ho. injection Ho as <-. by apply elem_of_list_singleton.
+        -- intros H. apply elem_of_list_singleton in H. congruence.
+      * right. intros H. apply elem_of_list_singleton in H. discriminate.
+    + intros o' Ho'. specialize (Hobj' o' Ho'). destruct o' as [r rr|k' m'].
+      * destruct Hobj' as [Hn H]. left. split; [exact H|]. intros Hx. apply elem_of_list_singleton in Hx. congruence.
+      * destruct Hobj' as [[-> ->]|[Hn H]]; [right; by apply elem_of_list_singleton|].
+        left. split; [exact H|]. intros Hx. apply elem_of_list_singleton in Hx. discriminate.
+    + intros [r rr|k' m'] Ho Hx.
+      * cbn in Ho |- *. rewrite lookup_delete_ne; [exact Ho|]. intros <-. apply Hx. apply elem_of_list_singleton.
+        rewrite Hp in Ho. by injection Ho as <-.
+      * destruct Ho as (st' & H & Hbuf). exists st'. cbn. split; [|done]. rewrite lookup_insert_ne; [done|].
+        intros <-. rewrite Hk in H. injection H as <-. congruence.
+    + intros o' Ho'. apply elem_of_list_singleton in Ho' as ->. eexists. cbn. split; [apply lookup_insert|done].
+    + intros o' j Ho' Hj. apply elem_of_list_singleton in Ho' as ->. left. exists (OProc p pp).
+      split; [by apply elem_of_list_singleton|]. cbn. by apply Hprov.
+    + intros o' j Ho' Hj. apply elem_of_list_singleton in Ho' as ->. left. exists (OProc p pp).
+      split; [by apply elem_of_list_singleton|]. cbn. by apply Hrefs.
+    + intros o1 o2 j H1 H2 _ _. apply elem_of_list_singleton in H1, H2. congruence.
+    + intros o1 o2 j H1 H2 _ _. apply elem_of_list_singleton in H1, H2. congruence.
+    + intros o j Ho Hj. apply elem_of_list_singleton in Ho as ->. left. exists (OMsg k m).
+      split; [by apply elem_of_list_singleton|]. by apply Hprov'.
+    + intros k' st' Hk' Hcl'. left. cbn in Hk'. apply lookup_insert_Some in Hk' as [[<- <-]|[Hn Hk']]; [cbn in Hcl'; congruence|].
+      exists st'. done.
+    + intros rk M Hr. exists rk, M. eapply rank_ok_same_dom; [| |exact Hr].
+      * intros k' Hk'. cbn in Hk'. apply lookup_insert_is_Some in Hk' as [<-|[_ H]]; [by eexists|done].
+      * intros o' k1 j Ho' Hk1 Hj. specialize (Hobj' o' Ho'). destruct Hr as [_ Hr]. destruct o' as [r rr|k' m'].
+        -- destruct Hobj' as [_ H]. eapply (Hr (OProc r rr)); eauto.
+        -- destruct Hobj' as [[-> ->]|[_ H]]; [|eapply (Hr (OMsg k' m')); eauto].
+           eapply (Hr (OProc p pp)); [exact Hp|by apply Hprov|by apply Hrefs].
+  - split.
+    + intros r rr Hr. cbn in Hr. apply lookup_delete_Some in Hr as [_ Hr]. exact (lc_procs c Hl r rr Hr).
+    + intros k' st' m' Hk' Hb'. cbn in Hk'. apply lookup_insert_Some in Hk' as [[<- <-]|[_ Hk']].
+      * cbn in Hb'. injection Hb' as <-. apply Hlin. exact (lc_procs c Hl p pp Hp).
+      * exact (lc_msgs c Hl k' st' m' Hk' Hb').
+Qed.
+End Step.
